@@ -34,6 +34,7 @@ Inductive obs :=
 Inductive case :=
 | CMsg (alg ulen : N) (data trailing : bytes) (wire : option bytes) (back : option (N * N * bytes))
 | CRun (ee : bool) (adv : list N) (alg declared : N) (open_ok : bool) (o : outspec) (chunks : list N) (e : rend)
+       (fs : zframes)   (* zstd: (declared Window_Size, decompressed length) of every frame, parsed from the frame headers by the runner; [] otherwise *)
        (valid : bool)   (* header ++ out is a structurally valid TLS 1.3 Certificate message (runner's own reference parser) *)
        (ob : obs).
 
@@ -54,8 +55,8 @@ Definition check (c : case) : bool :=
       | Err _, None => true
       | _, _ => false
       end
-  | CRun ee adv alg declared open_ok o chunks e valid ob =>
-      match decompress_cert bytes (fun b => if valid then Some b else None) ee adv alg declared open_ok (mkR (out_of o) (map N.to_nat chunks) e), ob with
+  | CRun ee adv alg declared open_ok o chunks e fs valid ob =>
+      match decompress_cert_top bytes (fun b => if valid then Some b else None) ee adv alg declared open_ok fs (mkR (out_of o) (map N.to_nat chunks) e), ob with
       | Ok raw, OOk len s1 s2 full =>
           let '(a1, a2) := adler raw in
           (dlen raw =? len) && (a1 =? s1) && (a2 =? s2) &&
